@@ -111,9 +111,9 @@ def run(rep, tier, seed):
         n_mtbad += sum(1 for b in e.get("mtok", {}).values() if not b)
         # layout invariance on the real results
         c, bg, groups = byid[tag]
-        # layout insertion is only layout when the parser skips it (whitespace skipping on, or a Layout rule) and
-        # the whole input must be consumed (with partial parsing a prefix may legitimately be returned)
-        layout_mode = (r.dump.augl >= 0 or r.case.flags.get("skipws", 1)) and not r.case.flags.get("partial", 0)
+        # layout insertion is only layout when the parser skips it (whitespace skipping on, or a Layout rule); with
+        # partial parsing the re-renderings of one SENTENCE must still give one tree (only accepted variants are compared)
+        layout_mode = bool(r.dump.augl >= 0 or r.case.flags.get("skipws", 1))
         for idxs in (groups if layout_mode else []):
             outs = [r.results.get(("LR", i), "") for i in idxs]
             oks = [o for o in outs if o.startswith("OK")]
